@@ -155,15 +155,22 @@ def check_property(verif, pid, tier, cp, keep=False):
                 # known finding?
                 hit = None
                 for k in known:
-                    if k["property"] == pid and (k["obligation"] in err["labels"] or k["obligation"] == err["site"]):
+                    # a known finding is identified by its obligation label / site; it is the same
+                    # defect whichever property's check runs into it
+                    if k["obligation"] in err["labels"] or k["obligation"] == err["site"]:
                         hit = k
                 if hit:
                     known_hits.append((hit, err))
                 else:
                     violations.append(("verus", r["unit"], err))
             if not labs_only:
-                for fo in r["failed"]:
-                    if fo.startswith("F:"):
+                # a function-level obligation fails for this property iff one of the errors that
+                # count against the property lies in that function
+                def _known(er):
+                    return any(k["obligation"] in er["labels"] or k["obligation"] == er["site"] for k in known)
+                bad = {er["fn"].split("::")[-1] for er in r["errors"] if counts_for(pid, e, er, tier) and not _known(er)}
+                for fo in r["obligations"]:
+                    if fo.startswith("F:") and fo.split("::")[-1] in bad:
                         failed_obl.add(fo)
             for rr in r.get("resource", []):
                 if r["status"] == "fail":
@@ -197,7 +204,7 @@ def check_property(verif, pid, tier, cp, keep=False):
                     failed_obl.add("K:" + h["label"])
                     hit = None
                     for k in known:
-                        if k["property"] == pid and k["obligation"] == h["label"]:
+                        if k["obligation"] == h["label"]:
                             hit = k
                     err = {"labels": [h["label"]], "class": "kani", "fn": h["name"], "site": h["label"],
                            "message": "; ".join(h.get("failed_checks", [])[:4]),
@@ -211,7 +218,22 @@ def check_property(verif, pid, tier, cp, keep=False):
                     undecided.append(f"kani harness {h['name']}: {h['result']}")
             for k, v in r.get("assumptions", {}).items():
                 assumptions[f"kani/{g}: {k}"] = v
-        obligations = sorted(set(obligations))
+        # obligations that fail because of a recorded genuine defect are reported as KNOWN-FINDING
+        # and are not counted as obligations of this run (neither discharged nor failed)
+        known_obl = set()
+        for hit, err in known_hits:
+            for l in err["labels"]:
+                known_obl.add("L:" + l)
+                known_obl.add("K:" + l)
+            known_obl.add(err["site"])
+        viol_obl = set()
+        for _eng, _unit, err in violations:
+            for l in err["labels"]:
+                viol_obl.add("L:" + l)
+                viol_obl.add("K:" + l)
+        known_obl -= viol_obl
+        obligations = sorted(o for o in set(obligations) if o not in known_obl)
+        failed_obl = {o for o in failed_obl if o not in known_obl}
         discharged = [o for o in obligations if o not in failed_obl]
         # ------------------------------------------------------------------ report
         seen = set()
@@ -220,7 +242,7 @@ def check_property(verif, pid, tier, cp, keep=False):
             if key in seen:
                 continue
             seen.add(key)
-            print(f"KNOWN-FINDING: property={pid} obligation={hit['obligation']} {hit['text']}")
+            print(f"KNOWN-FINDING: property={hit['property']} obligation={hit['obligation']} {hit['text']}")
         replay_paths = []
         os.makedirs(os.path.join(verif, "replays", "out"), exist_ok=True)
         for n, (eng, unit, err) in enumerate(violations):
